@@ -136,15 +136,13 @@ Definition swap_edge_guard (fuel : nat) (s : state) (edge : Z) : option bool :=
   swap_scan_guard fuel fuel s6 current a1 endVert a2.
 
 (* CollapseEdge2's "Orbit startVert" loop: same control flow as orbit_start;
-   at every iteration `current` must be live, and at every FormLoop the guard
-   above must hold with x = tri0edge[0] *)
+   at every FormLoop the guard above must hold with x = tri0edge[0] *)
 Fixpoint orbit_start_guard (fuel lf : nat) (s : state) (x current stop start : Z)
          (edges : list Z) (sp0 ep0 sp1 ep1 : Z) : option bool :=
   if current =? stop then Some true
   else match fuel with
        | O => None
        | S f =>
-           if negb (hlive s current) then Some false else
            let c := next_he current in
            s1 <- (if 0 <? numprop s then
                     pc <- h_prop s c ;;
@@ -166,8 +164,7 @@ Fixpoint orbit_start_guard (fuel lf : nat) (s : state) (x current stop start : Z
            end
        end.
 
-(* CollapseEdge2: edge and pair in different faces; Pair(tri1edge[1]) is not a
-   halfedge of tri1 (tri1 is not folded onto itself); the orbit guard; the
+(* CollapseEdge2: edge and pair in different faces; the orbit guard; the
    final RemoveIfFolded(start) guard *)
 Definition collapse_edge2_guard (fuel : nat) (s : state) (edge : Z) (reject : bool)
   : option bool :=
@@ -186,7 +183,7 @@ Definition collapse_edge2_guard (fuel : nat) (s : state) (edge : Z) (reject : bo
       ep1 <- h_prop s b0 ;;
       start <- h_pair s b1 ;;
       endVert <- h_start s a1 ;;
-      if in_faceb edge pair then Some false else
+      if in_faceb pair edge then Some false else
       s1 <- collapse_tri s (b0, b1, b2) ;;
       g <- orbit_start_guard fuel fuel s1 a0 start a2 start edges sp0 ep0 sp1 ep1 ;;
       if negb g then Some false else
